@@ -40,11 +40,15 @@ fn git_head() -> (String, bool) {
     (head, dirty)
 }
 
-/// canonical minimal image of a symbol text = "which tiling is this"
+/// "Which tiling is this": the canonical minimal image of the symbol or of
+/// its dual, whichever text is smaller - a tiling and its dual are the same
+/// object for the purpose of identifying a finding.
 pub fn tiling_of(text: &str) -> String {
     let r = std::panic::catch_unwind(|| {
         let s = Sym::parse(text).ok()?;
-        Some(canonical(&minimal_image(&s.to_partial())).to_string())
+        let a = canonical(&minimal_image(&s.to_partial())).to_string();
+        let b = canonical(&minimal_image(&s.dual().to_partial())).to_string();
+        Some(if a <= b { a } else { b })
     });
     match r {
         Ok(Some(t)) => t,
@@ -538,7 +542,7 @@ fn write_evidence(d: &Driver, path: &Path, violations: i64, replays: &[Value], k
     let probes_at_zero: Vec<&str> = if hooks_compiled() { probes_expected.iter().cloned().filter(|p| !a.probes.contains_key(*p)).collect() } else { vec![] };
     let (head, dirty) = git_head();
     let rule = "cases = simulated executions of the real library call (C17: is_euclidean(s); C16: simplify(X)) on a fresh thread whose RandomState keys, call history, input numbering/dual/cover/representation and (in steered runs) start-of-walk choices are drawn from SplitMix64(h(VERIF_SEED, property, run index)). distinct_nontrivial = number of distinct (input fingerprint, decision trace) pairs among runs that passed at least one hash-order decision with >= 2 eligible options (counted from the hook's decision log; 0 decisions or single-option decisions are trivial). Without the hook build it falls back to distinct (input fingerprint, output fingerprint) pairs of runs that reached simplify.";
-    let distinct_nontrivial = a.nontrivial_traces.len();
+    let distinct_nontrivial = if hooks_compiled() { a.nontrivial_traces.len() } else { a.deep_pairs.len() };
     let ev = json!({
         "property_id": prop,
         "tier": d.args.tier.name(),
